@@ -33,6 +33,10 @@ pub enum RAct {
 pub struct RunSpec {
     pub reliable: bool,
     pub acts: Vec<RAct>,
+    /// every datagram travels through a real loopback UDP socket and the real UDPListener before it reaches the
+    /// MessageReceiver (one UDPListener::messages() call per readiness event, as DPEventLoop does)
+    #[serde(default)]
+    pub via_socket: bool,
 }
 
 pub fn writer_guid(w: u8) -> [u8; 16] {
@@ -90,6 +94,7 @@ pub struct Exec {
     pub captured: Vec<Vec<u8>>, // every datagram the reader emitted (for the wire checks)
     pub hostile_front: i64,
     pub hostile_count: i32,
+    pub ingress: Option<Ingress>,
 }
 
 fn outputs_by_writer(sent: &[rustdds::verif::net::Sent], captured: &mut Vec<Vec<u8>>) -> Vec<(u8, Vec<Value>, Vec<Value>)> {
@@ -131,16 +136,67 @@ fn outputs_by_writer(sent: &[rustdds::verif::net::Sent], captured: &mut Vec<Vec<
     out
 }
 
+pub struct Ingress {
+    listener: rustdds::verif::listener_rig::ListenerRig,
+    sock: std::net::UdpSocket,
+}
+
+/// Hands datagrams to the reader: directly to the MessageReceiver, or over the socket.  Over the socket the
+/// listener is drained once per datagram sent (plus retries while the kernel has not delivered yet), and every
+/// message it returns goes to the MessageReceiver in order.
+fn deliver(rig: &mut ReaderRig, ingress: &mut Option<Ingress>, dgs: &[Vec<u8>]) -> Vec<rustdds::verif::net::Sent> {
+    let mut sent = vec![];
+    match ingress {
+        None => {
+            for d in dgs {
+                sent.extend(rig.inject(d));
+            }
+        }
+        Some(ing) => {
+            for d in dgs {
+                if ing.sock.send_to(d, ("127.0.0.1", ing.listener.port)).is_err() {
+                    continue; // not sendable as one UDP datagram
+                }
+                let mut got = 0;
+                for attempt in 0..200 {
+                    let msgs = ing.listener.drain();
+                    got += msgs.len();
+                    for m in msgs {
+                        sent.extend(rig.inject(&m));
+                    }
+                    if got >= 1 {
+                        break;
+                    }
+                    if attempt > 2 {
+                        std::thread::sleep(std::time::Duration::from_micros(200));
+                    }
+                }
+            }
+        }
+    }
+    sent
+}
+
 impl Exec {
+    pub fn with_socket(reliable: bool, run_no: usize) -> Self {
+        let mut e = Self::new(reliable);
+        let listener = rustdds::verif::listener_rig::ListenerRig::new(24_000 + (run_no % 400) as u16 * 10);
+        let sock = std::net::UdpSocket::bind("127.0.0.1:0");
+        if let (Some(listener), Ok(sock)) = (listener, sock) {
+            e.ingress = Some(Ingress { listener, sock });
+        }
+        e
+    }
+
     pub fn new(reliable: bool) -> Self {
         let rig = ReaderRig::new(&[ReaderCfg { reliable, history_depth: None, max_samples: Some(1_000_000) }]);
         let reader_eid = rig.slots[0].entity_id;
-        Exec { rig, reliable, reader_eid, captured: vec![], hostile_front: 10, hostile_count: 1000 }
+        Exec { rig, reliable, reader_eid, captured: vec![], hostile_front: 10, hostile_count: 1000, ingress: None }
     }
 
     fn inject(&mut self, w: u8, subs: &[Sub]) -> Vec<(u8, Vec<Value>, Vec<Value>)> {
         let bytes = wire::encode(&writer_prefix(w), subs);
-        let sent = self.rig.inject(&bytes);
+        let sent = deliver(&mut self.rig, &mut self.ingress, &[bytes]);
         outputs_by_writer(&sent, &mut self.captured)
     }
 
@@ -219,12 +275,11 @@ impl Exec {
                 let total_len: usize = dgs.iter().map(|d| d.len()).sum();
                 crate::util::live_event(&json!({"ev":"HostileBegin","cls":cls,"w":w,"_streamed":true}));
                 let rig = &mut self.rig;
+                let ingress = &mut self.ingress;
                 let m = crate::measure::measure(|| {
-                    for d in &dgs {
-                        let _ = rig.inject(d);
-                    }
+                    let _ = deliver(rig, ingress, &dgs);
                 });
-                out.push(json!({"ev":"Hostile","cls":cls,"w":w,"n":dgs.len(),"len":total_len,"panic":m.panic.is_some(),"msg":m.panic.unwrap_or_default(),"us":m.us as u64,"alloc":m.alloc as u64,"died":""}));
+                out.push(json!({"ev":"Hostile","cls":cls,"w":w,"n":dgs.len(),"len":total_len,"panic":m.panic.is_some(),"msg":m.panic.unwrap_or_default(),"us":m.us as u64,"alloc":m.alloc as u64,"died":"","sock":self.ingress.is_some()}));
             }
             RAct::Take { max } => {
                 let res = self.rig.slots[0].dr().take(*max, ReadCondition::any());
@@ -282,7 +337,7 @@ impl Exec {
 }
 
 pub fn run_one(run_no: usize, spec: &RunSpec, out: &mut Vec<Value>) -> Vec<Vec<u8>> {
-    let mut ex = Exec::new(spec.reliable);
+    let mut ex = if spec.via_socket { Exec::with_socket(spec.reliable, run_no) } else { Exec::new(spec.reliable) };
     out.push(json!({"ev":"Reset","run":run_no,"reliable":spec.reliable}));
     for a in &spec.acts {
         ex.step(a, out);
@@ -368,7 +423,7 @@ pub fn random_run(rng: &mut StdRng, n_events: usize) -> RunSpec {
         }
     }
     acts.push(RAct::Take { max: 10_000 });
-    RunSpec { reliable, acts }
+    RunSpec { reliable, acts, via_socket: false }
 }
 
 pub fn random_specs(seed: u64, runs: usize, events: usize) -> Vec<RunSpec> {
@@ -420,7 +475,8 @@ pub fn hostile_specs(seed: u64, runs: usize) -> Vec<RunSpec> {
             acts.push(RAct::Data { w: 1, sn: s });
         }
         acts.push(RAct::Take { max: 10_000 });
-        out.push(RunSpec { reliable: true, acts });
+        // the third and fourth round over the classes go through the socket and the UDPListener
+        out.push(RunSpec { reliable: true, acts, via_socket: (k / (2 * classes.len())) % 2 == 1 });
     }
     out
 }
